@@ -178,15 +178,20 @@ func traceAuth(out string, nTraces, blocks int) {
 		s.Names[maddr.String()] = "m1"
 		r.Reset("auth")
 		var history []sentTx
+		// transactions of earlier blocks that were refused with a non-zero code: resubmitting the ones that
+		// passed the ante handler (fee paid) and failed in their message handler must not charge the fee again
+		var failed []sentTx
 		funded := false
 		entropy := int64(1)
 		for b := 0; b < blocks; b++ {
 			r.BeginBlock(chainsim.BlockOpts{})
 			ntx := rng.Intn(5)
-			var inBlock []sentTx
+			var inBlock, failedNow []sentTx
 			for i := 0; i < ntx; i++ {
 				var tx sentTx
 				switch {
+				case len(failed) > 0 && rng.Intn(5) == 0:
+					tx = failed[rng.Intn(len(failed))] // a refused transaction of an earlier block, same bytes
 				case len(inBlock) > 0 && rng.Intn(8) == 0:
 					tx = inBlock[rng.Intn(len(inBlock))] // same bytes again in this block
 				case len(history) > 0 && rng.Intn(6) == 0:
@@ -229,8 +234,12 @@ func traceAuth(out string, nTraces, blocks int) {
 				rep.Steps++
 				rep.OpCounts[classOf(res.Code, res.Codespace)]++
 				inBlock = append(inBlock, tx)
+				if res.Code != 0 && !(res.Codespace == "auth" && res.Code == 6) {
+					failedNow = append(failedNow, tx)
+				}
 			}
 			history = append(history, inBlock...)
+			failed = append(failed, failedNow...)
 			r.EndBlock()
 			r.Commit()
 		}
